@@ -399,6 +399,22 @@ func (o *oracle) streamClasses(so *srcObj) {
 		if len(n.Data) >= 1024 {
 			o.cls["stream>=1024"] = true
 		}
+		if o.c.Writer == "lib" && n.CryptIdentity {
+			o.cls["explicit-crypt-identity"] = true
+			if len(n.Filters) > 0 {
+				o.cls["explicit-crypt-identity+filters"] = true
+			}
+			if cipherOf(o.c.Src) != "none" {
+				o.cls["explicit-crypt-identity:encrypted-source"] = true
+				o.cls["explicit-crypt-identity->tgt:"+cipherOf(o.c.Tgt)] = true
+			}
+			if n.CryptInd {
+				o.cls["indirect-first-filter-element"] = true
+				if cipherOf(o.c.Src) != "none" {
+					o.cls["indirect-first-filter-element:"+cipherOf(o.c.Src)] = true
+				}
+			}
+		}
 	}
 	for _, kv := range so.dict.D {
 		if k := string(kv.K); (k == "Filter" || k == "DecodeParms") && hasRef(kv.V) {
